@@ -33,6 +33,15 @@ def cases(tier, rng):
                     yield {"k": 305, "args": [ds], "call": {"api": rng.choice(["vec", "ras"])}, "group": f"exh-n{n}-isvalid"}
                     yield {"k": 306, "args": [ds], "call": {"api": rng.choice(["vec", "ras"])}, "group": f"exh-n{n}-repair"}
                     yield {"k": 306, "args": [ds], "call": {"api": rng.choice(["vec", "ras"]), "pre": rng.choice(["sort", "walk"])}, "group": f"exh-n{n}-repair-after-order"}
+    # very wide confluences (vector class; walk order sizes a matrix by the largest number of upstream nodes) -- the
+    # upstream counter must not be narrower than the number of nodes (fixed e180a55)
+    for ntrib in ([127, 128, 129, 200, 257] if tier == "quick" else list(range(125, 132)) + [200, 255, 256, 257, 300, 513]):
+        for tail in (0, 1):
+            hub = 1 if tail else 0
+            ds = ([0, 0] if tail else [0]) + [hub] * ntrib
+            for api in ("vec-walk", "vec-sort"):
+                yield {"k": 303 if "sort" in api else 302, "args": [ds, nets.pits(ds)], "call": {"api": api}, "group": "wide-star"}
+            yield {"k": 307, "args": [ds, [0], []], "group": "wide-star-upcount"}
     nrand = 250 if tier == "quick" else 2500
     for t in range(nrand):
         n = rng.randint(2, 60 if t % 3 else 9)
